@@ -158,8 +158,8 @@ def statement_tokens_contract(p, resolver, shape, size_text, mnemonic, operand_v
         check("suffix_is_the_size", node.size == lower_size(size_text))
     for w in ("b", "w", "l"):
         check("mode_denotes_the_syntax_form", isa65816.form_of(node.addressing_mode.name, node.index, w) == syntax.form(shape, w))
-    if shape == "implied":
-        check("no_operand", node.value_node is None)
+    if shape == "implied" or node.value_node is None:
+        check("no_operand", shape == "implied" and node.value_node is None)  # only the implied form has no operand
     else:
         # the operand is the expression written in the statement: its value (real eval_expression, e and f bound to ANY integers)
         check("operand_value_is_the_written_expression", node.value_node.get_value() == operand_value)
